@@ -808,5 +808,36 @@ func TestVerif_C25(t *testing.T) {
 		r.Inconclusive(fmt.Sprintf("too few distributions were produced: direct %d of %d, tx %d of %d",
 			r.Counter("direct_distributed"), nDirect, r.Counter("tx_built"), nTx))
 	}
+	// on a live node: a mint that covers more than one batch (a skipped day) is finalized, then the node is asked again what
+	// the mint of that (now recorded) batch amounts to, as it does when the recorded mint reaches it once more: it must
+	// be the recorded amount (the distribution among nodes is not compared: it follows the works known at that moment)
+	{
+		rng2 := r.Fork("c25-live", 0)
+		f := verifNewFeedAt(t, fmt.Sprintf("c25m-%d", r.Seed), 7, rng2, t.TempDir(), nil, verifMintEpochUnix(), 1707)
+		w := verifgen.NewWallet(f.net.Label, rng2, &f.net.Custodian, 3)
+		for k := 0; k < r.N(1, 3); k++ {
+			mc, mtx, mts, err := f.buildMint(w)
+			if err != nil {
+				r.Count("live_mint_not_buildable", 1)
+				t.Logf("live mint: %v", err)
+				break
+			}
+			s, d := f.feedBatch(mc, []*common.VersionedTransaction{mtx}, mts)
+			if !d.Finalized {
+				r.Count("live_mint_not_finalized", 1)
+				t.Logf("live mint not finalized: %v %v", d.Err, d.PanicVal)
+				break
+			}
+			amount := mtx.Inputs[0].Mint.Amount
+			r.Count("live_mints_finalized", 1)
+			r.Eval()
+			r.Nontrivial(fmt.Sprintf("live-mint|%d|%s", mtx.Inputs[0].Mint.Batch, amount))
+			if b, a := f.node.checkUniversalMintPossibility(s.Timestamp, true); b == mtx.Inputs[0].Mint.Batch && a.Cmp(amount) != 0 {
+				r.Violation("C25|live|amount-for-the-recorded-batch-differs", fmt.Sprintf("for the recorded batch %d the node now expects %s, the recorded mint carries %s", b, a, amount),
+					map[string]any{"batch": b, "expected_now": a.String(), "recorded": amount.String()})
+			}
+		}
+		f.stop()
+	}
 	r.Finish()
 }
